@@ -191,18 +191,63 @@ func H_C08_line_moves_from_advanced_position() {
 	vReach("end")
 }
 
+// H_C08_line_move_after_kerned_array: position adjustments inside a TJ array move the text matrix only; the next T*
+// still starts from the line matrix.
+//
+//symgo:harness prop=C08 kernel=K1c-line-move-after-TJ real=1
+//symgo:desc "cm BT Tf Tm TL" with symbolic real operands, then [(A) k (B)] TJ with a symbolic real or integer adjustment k (enumerated kind), then T* or ' (enumerated), then - after T* - Tj: the last fragment's origin is (0,0) x T(0,-leading) x Tlm x CTM, where Tlm is the matrix set by Tm (untouched by the array's adjustment). Floats as reals
+func H_C08_line_move_after_kerned_array() {
+	c, t0 := vAnyMat(), vAnyMat()
+	lead, k := vAnyFloat(), vAnyFloat()
+	e := NewExtractor()
+	var adj core.Object = core.Real(k)
+	if vAnyIntIn(0, 1) == 1 {
+		adj = core.Int(-5000)
+	}
+	for _, op := range []contentstream.Operation{vOp("cm", vMatOps(c)...), vOp("BT"), vOp("Tf", core.Name("F1"), core.Real(12)), vOp("Tm", vMatOps(t0)...), vOp("TL", core.Real(lead)),
+		vOp("TJ", core.Array{core.String("A"), adj, core.String("B")})} {
+		vAssert("prefix-ok", e.processOperation(op) == nil)
+	}
+	ref := vRefState{ctm: c, tm: t0, tlm: t0, leading: lead}
+	ref.td(0, -ref.leading)
+	if vAnyIntIn(0, 1) == 0 {
+		vAssert("operator-ok", e.processOperation(vOp("T*")) == nil)
+		vAssert("show-ok", e.processOperation(vOp("Tj", core.String("C"))) == nil)
+	} else {
+		vAssert("operator-ok", e.processOperation(vOp("'", core.String("C"))) == nil)
+	}
+	vAssert("fragment-emitted", len(e.fragments) >= 1)
+	last := e.fragments[len(e.fragments)-1]
+	full := vMul(ref.tm, ref.ctm)
+	vAssert("origin-x", last.X == full[4])
+	vAssert("origin-y", last.Y == full[5])
+	vReach("end")
+}
+
 // H_C08_font_size: the reported font size reflects font size, text matrix and CTM scaling.
 //
 //symgo:harness prop=C08 kernel=K3-font-size real=1
-//symgo:desc uniform scales only (where the statement is unambiguous): Tf size fs > 0, Tm = diag(s,s) with translation, cm = diag(t,t) with translation, s, t > 0, all symbolic reals: reported FontSize = fs*s*t (the square root is modelled algebraically: y >= 0 and y*y = x)
+//symgo:desc uniform scales only (where the statement is unambiguous), each turned by 0, 90, 180 or 270 degrees (enumerated, exact matrices): Tf size fs > 0, Tm = s*R with translation, cm = t*R' with translation, s, t > 0, all symbolic reals: reported FontSize = fs*s*t (the square root is modelled algebraically: y >= 0 and y*y = x)
 func H_C08_font_size() {
 	fs, s, t := vAnyFloat(), vAnyFloat(), vAnyFloat()
 	vAssume(fs > 0 && s > 0 && t > 0)
 	e1, f1, e2, f2 := vAnyFloat(), vAnyFloat(), vAnyFloat(), vAnyFloat()
+	// a uniform scale k turned by 0, 90, 180 or 270 degrees (exact matrices): the scaling is still k
+	turned := func(k float64, quarter int, e, f float64) vMat {
+		switch quarter {
+		case 1:
+			return vMat{0, k, -k, 0, e, f}
+		case 2:
+			return vMat{-k, 0, 0, -k, e, f}
+		case 3:
+			return vMat{0, -k, k, 0, e, f}
+		}
+		return vMat{k, 0, 0, k, e, f}
+	}
 	ops := []contentstream.Operation{
-		vOp("cm", vMatOps(vMat{t, 0, 0, t, e1, f1})...),
+		vOp("cm", vMatOps(turned(t, vAnyIntIn(0, 3), e1, f1))...),
 		vOp("BT"), vOp("Tf", core.Name("F1"), core.Real(fs)),
-		vOp("Tm", vMatOps(vMat{s, 0, 0, s, e2, f2})...),
+		vOp("Tm", vMatOps(turned(s, vAnyIntIn(0, 3), e2, f2))...),
 		vOp("Tj", core.String("A")),
 	}
 	frags, err := NewExtractor().Extract(ops)
